@@ -49,7 +49,7 @@ TARGETS = {
             "replace_residual_of_inv", "replace_residual", "replace_residual_cut",
             "replaceOp_residual", "editHistory_undo_bmp", "editResidual_of'", "editHistory_undo_bmp'",
             "fit_around_gapFitsBack", "editResidual'_of_hyps", "editHistory_undo", "deleteOp_residual",
-            "insertInlineOp_residual"],
+            "insertInlineOp_residual", "editHistory_undo'", "insertInlineOp_residual'"],
     "C11": ["fitStep_decreases", "fitLoop_outOfFuel_exact", "fitLoop_terminates", "replaceStep_outOfFuel_cycle",
             "replaceStep_not_outOfFuel", "fit_no_internal_partial", "replaceStep_total_partial", "delete_total",
             "delete_total_respects", "deleteRange_total", "insertInline_total", "fit_emits_wf", "coherent_invariant",
@@ -62,7 +62,7 @@ TARGETS = {
             "fit_emitOK_of_inv_partial", "insertInline_valid_partial", "insertInline_total_valid_partial",
             "replace_valid_of_inv_partial", "replaceRange_valid_inline_partial", "replaceRange_valid_of_inv_partial",
             "replaceRangeWith_valid_of_inv_partial", "replaceRangeWith_valid_inline_partial", "aroundPayload_of_norm",
-            "insertInline_valid_of_norm", "replace_valid_of_inv_of_norm",
+            "insertInline_valid_of_norm", "replace_valid_of_inv_of_norm", "insertInline_valid", "replace_valid_of_inv",
             "fit_emits_valid_payload", "payloadInv_step_gen", "fit_emits_valid_payload_cut", "fit_replace_recorded_valid",
             "delete_recorded_valid", "fit_no_raise_partial", "fit_raise_sites"],
     "C12": ["canJoin_join_applies", "liftTarget_lift_applies_flat", "liftTarget_lift_applies", "insertPoint_insert_applies",
